@@ -374,6 +374,42 @@ pub fn c16_scenarios() -> Vec<Scn> {
       ));
     }
   }
+  // interval(d) over a consumer that needs c per tick: whatever the implementation does about the
+  // drift (nothing: tick k at k*d + (k-1)*c; compensating: at k*d), no tick comes before k*d
+  for (d, c) in [(10u64, 3u64), (20, 7)] {
+    let name = format!("c16/interval({}ms) over a consumer that needs {}ms per tick", d, c);
+    v.push(time_scn(
+      &name,
+      if d == 10 { Some(2) } else { None },
+      Some(3),
+      move |rec, _| {
+        let o = observables::interval(ms(d), nt()).tap(move |_| thread::sleep(ms(c)), |_| {}, || {});
+        let sub = rec.subscribe(&o, |x| x as i64);
+        thread::sleep(ms(4 * d + 3 * c + d / 2));
+        sub.unsubscribe();
+      },
+      move |tm, _, _| {
+        let got: Vec<(i64, u64)> = tm.iter().filter_map(|x| if let EvK::Next(v) = x.k { Some((v, x.at_ms)) } else { None }).collect();
+        let mut vs = vec![];
+        for (i, (val, at)) in got.iter().enumerate() {
+          let k = i as u64 + 1;
+          // the recorder sits below the slow stage: it sees tick k at (tick time) + c
+          let (lo, hi) = (k * d + c, k * d + (k - 1) * c + c);
+          if *val != i as i64 || *at < lo || *at > hi {
+            vs.push(viol("interval-off-the-clock", format!("tick {} (value {}) seen at {}ms, want value {} within [{}, {}]ms; all: {}", k, val, at, i, lo, hi, show_timed(tm))));
+            break;
+          }
+        }
+        if got.len() < 4 {
+          vs.push(viol("interval-off-the-clock", format!("only {} ticks within {}ms: {}", got.len(), 4 * d + 3 * c + d / 2, show_timed(tm))));
+        }
+        if tm.iter().any(|x| !matches!(x.k, EvK::Next(_))) {
+          vs.push(viol("interval-terminated", show_timed(tm)));
+        }
+        vs
+      },
+    ));
+  }
   // interval on the default (synchronous) scheduler: ticks on the subscribing thread until take(n) ends it
   v.push(time_scn(
     "c16/interval(10ms, default scheduler).take(3) on the subscribing thread",
